@@ -304,15 +304,22 @@ def run(ctx: Any, prog: Program) -> None:
     # ---- D5 --------------------------------------------------------------------------------------------
     fi = vm.func('EntityFixup.__init__')
     src = U(fi)
-    ok = 'if fix.id not in used_indexes' in src and 'used_indexes.add(fix.id)' in src
+    # the set of indexes handed out so far: the local that receives `.add(<value>.id)`
+    used_sets = {dotted(c.func.value) for c in ast.walk(fi) if isinstance(c, ast.Call) and isinstance(c.func, ast.Attribute) and c.func.attr == 'add' and isinstance(c.func.value, ast.Name)
+                 and c.args and isinstance(c.args[0], ast.Attribute) and c.args[0].attr == 'id'}
+    used_set = sorted(used_sets)[0] if len(used_sets) == 1 else 'used_indexes'
+    ok = any(isinstance(c, ast.Compare) and len(c.ops) == 1 and isinstance(c.ops[0], ast.NotIn) and isinstance(c.left, ast.Attribute) and c.left.attr == 'id' and dotted(c.comparators[0]) == used_set for c in ast.walk(fi)) \
+        and len(used_sets) == 1
     loops = [n for n in walk_no_nested(fi) if isinstance(n, ast.For)]
     ok2 = any(isinstance(s, ast.Assign) and isinstance(s.targets[0], ast.Subscript) and dotted(s.targets[0].value) == 'self' for l in loops for s in ast.walk(l))
     ctx.shape('C08.D5', ok and ok2, vm, fi, 'EntityFixup.__init__ must keep an index only if unused so far and re-insert the rest through self[var] = value', text='init de-duplicates indexes')
     # the re-insertion must be deferred until every first-pass value is stored: __setitem__ picks the lowest index unused *so far*
-    first_pass = [l for l in loops if 'used_indexes' in U(l.body[0] if l.body else l)]
+    first_pass = [l for l in loops if l.body and any(isinstance(x, ast.Name) and x.id == used_set for x in ast.walk(l.body[0]))]
     early = [s for l in first_pass for s in ast.walk(l) if isinstance(s, ast.Assign) and isinstance(s.targets[0], ast.Subscript) and dotted(s.targets[0].value) == 'self']
-    reserves = any('used_indexes.add' in U(s) and 'self[' not in U(s) for l in first_pass for s in l.body) and \
-        any(isinstance(c, ast.Call) and dotted(c.func) == 'used_indexes.add' and 'fix.id' not in U(c) for l in first_pass for c in ast.walk(l))
+    def _adds(n_: ast.AST) -> list:
+        return [c for c in ast.walk(n_) if isinstance(c, ast.Call) and dotted(c.func) == used_set + '.add']
+    reserves = any(_adds(s) and not any(isinstance(x, ast.Subscript) and dotted(x.value) == 'self' for x in ast.walk(s)) for l in first_pass for s in l.body) and \
+        any(not (c.args and isinstance(c.args[0], ast.Attribute) and c.args[0].attr == 'id' and isinstance(c.args[0].value, ast.Name)) for l in first_pass for c in _adds(l))
     ctx.check('C08.D5', not early or reserves, vm, early[0] if early else fi,
               'a colliding fixup is re-indexed through self[...] = ... inside the first pass: the lowest index unused *so far* may be the legitimate index of a later entry, '
               'which then keeps it too (two variables share one replaceNN)', text='init defers re-indexing of duplicates')
